@@ -500,4 +500,19 @@ example : (OP.commands (.unit "a") [("go", "x", none, .arg "b" .int "b_arg" none
   simp [OP.WellFormed, WellFormedSubs]
 example : splitNext [(0, "--o"), (1, "5"), (2, "-v"), (3, "x")] [("o", false)] = some ([(0, "--o"), (1, "5"), (2, "-v")], (3, "x"), []) := by rfl
 
+/-- `use_option` takes the first occurrence and the element after it, whatever it looks like -/
+example : useOption "o" false [(0, "x"), (1, "--o"), (2, "--o"), (3, "5")] = .found (1, "--o") (2, "--o") [(0, "x"), (3, "5")] := by rfl
+/-- same texts, different indices: same record, same texts left over -/
+example : zeroRes (parse 5 (.arg "a" .int "n" none) [(7, "--o"), (3, "5"), (9, "x")] [("o", false)]) =
+    zeroRes (parse 5 (.arg "a" .int "n" none) [(0, "--o"), (1, "5"), (2, "x")] [("o", false)]) := by rfl
+/-- usage of a commands parser with help texts -/
+example : (OP.commands (OP.switch "a" (some "v") "verbose" (some "be loud"))
+      [("run", "x", some "runs", .many (.arg "b" .str "file" none)), ("stop", "y", none, .unit "c")]).usage =
+    "[ --verbose|-v ] - be loud\n  run:  (runs)  \n    [ file : string ]*\n  stop:   \n  " := by rfl
+/-- the text `options::parse` returns for a leftover, and for two failing alternatives of a sum -/
+example : parseTop 9 (.arg "a" .int "n" none) ["5", "x"] = .error (.error "Leftover arguments [x]") := by rfl
+example : parseTop 9 (.sum "s" (.unitSwitch "a" none "k") (.arg "b" .int "n" none)) [] =
+    .error (.error "  Missing flag --k.\n|\n  Missing argument \"n\".") := by rfl
+example : (OP.many (.prod (.arg "a" .int "n" none) (.arg "b" .str "m" none))).labels = ["a", "b"] := by rfl
+
 end Fcppt.C03
